@@ -4,7 +4,7 @@ from vlib import *
 
 M2_TRUST = [
     "translator goskel (harness/cmd/goskel, ~1000 lines of Go): the emitted skeleton over-approximates the control flow of the current source; unknown callees may fail or succeed; conditions that are not recognised atoms are nondeterministic",
-    "hand-written primitives for pkg/tape/manager.go (GetWriter/GetReader lock the drive and release it on error, Close releases it); tied to the code by the fault-enumeration run",
+    "hand-written primitives for the callers of pkg/tape/manager.go (GetWriter/GetReader lock the drive and release it on error, Close releases it); the manager's own regenerated skeleton is checked against exactly that contract (C10_drive_manager_get, C10_drive_manager_close) and the fault-enumeration and race-stress runs exercise it",
     "the theorem quantifies over complete paths of the skeleton; every loop has an exit (checked: C10_loops_exit)",
     "termination of library calls and of loops over external data is assumed",
 ]
@@ -39,7 +39,7 @@ def coq_props(ctx, module, theorems, findings_module=None, extra=()):
 
 def check_C10(ctx):
     ctx.trusted += M2_TRUST
-    ok = coq_props(ctx, "C10", ["C10_all_paths", "C10_all_paths_sem", "C10_loops_exit", "C10_nonvacuous"], "C10_findings")
+    ok = coq_props(ctx, "C10", ["C10_all_paths", "C10_all_paths_sem", "C10_loops_exit", "C10_nonvacuous", "C10_drive_manager_get", "C10_drive_manager_close", "C10_drive_manager_get_sem", "C10_drive_manager_close_sem", "C10_drive_manager_nonvacuous"], "C10_findings")
     import drv
     drv.faults_C10(ctx, proof_ok=ok)
 
